@@ -749,6 +749,17 @@ func (g *G) block(kind string) string {
 			inner = g.linkCluster() + g.para()
 		}
 		return "<div" + marker + ">" + inner + "</div>\n"
+	case "texttable":
+		// bare inline text sharing its container with a data table (and other media) that follows it directly
+		tag := g.pick("tttag", "div", "section", "td-less", "li")
+		inner := g.inline(g.plen()) + " " + g.pick("ttmedia", g.dataTable(), g.dataTable(), strings.TrimSpace(g.video()), strings.TrimSpace(g.youtube())) + " " + g.inline(g.plen())
+		switch tag {
+		case "li":
+			return "<ul><li>" + inner + "</li></ul>\n"
+		case "td-less":
+			return "<article>" + inner + "</article>\n"
+		}
+		return "<" + tag + ">" + inner + "</" + tag + ">\n"
 	case "inlineimg":
 		return "<p>" + g.inline(g.plen()) + " " + strings.TrimSpace(g.img()) + " " + g.inline(g.plen()) + "</p>\n"
 	}
@@ -816,12 +827,12 @@ func articleProfile() *Profile {
 		Top: []wc{{"para", 30}, {"longpara", 14}, {"heading", 6}, {"list", 7}, {"quote", 4}, {"pre", 3}, {"container", 8},
 			{"dtable", 4}, {"ltable", 3}, {"figure", 4}, {"img", 3}, {"picture", 1}, {"lazy", 1}, {"video", 2},
 			{"youtube", 1}, {"vimeo", 1}, {"tweet", 1}, {"tweetframe", 1}, {"iframe", 1}, {"hidden", 3}, {"script", 1},
-			{"style", 1}, {"comment", 1}, {"classb", 3}, {"links", 3}, {"chrome", 5}, {"aside", 2}, {"inlinetext", 2}},
+			{"style", 1}, {"comment", 1}, {"classb", 3}, {"links", 3}, {"chrome", 5}, {"aside", 2}, {"inlinetext", 2}, {"texttable", 2}},
 		Nested: nestedText,
 		Core: []wc{{"para", 30}, {"longpara", 30}, {"heading", 5}, {"list", 6}, {"quote", 4}, {"pre", 2}, {"container", 3},
 			{"dtable", 3}, {"ltable", 2}, {"figure", 3}, {"img", 2}, {"picture", 1}, {"lazy", 1}, {"video", 1},
 			{"youtube", 1}, {"vimeo", 1}, {"tweet", 1}, {"tweetframe", 1}, {"iframe", 1}, {"hidden", 2}, {"script", 1},
-			{"style", 1}, {"comment", 1}, {"classb", 2}, {"links", 1}, {"chrome", 2}, {"aside", 1}, {"inlinetext", 1}},
+			{"style", 1}, {"comment", 1}, {"classb", 2}, {"links", 1}, {"chrome", 2}, {"aside", 1}, {"inlinetext", 1}, {"texttable", 2}},
 		MinTop:   2,
 		MaxTop:   12,
 		MaxDepth: 2,
